@@ -416,20 +416,37 @@ struct Op {
     fill: u8,
 }
 impl Op {
+    /// keys longer than 16 bytes ending in a run of one byte are written as prefix + pad byte + length
+    fn key_json(&self) -> Value {
+        let k = &self.key;
+        if k.len() > 16 {
+            let b = k[k.len() - 1];
+            let mut p = k.len();
+            while p > 0 && k[p - 1] == b {
+                p -= 1;
+            }
+            json!({"prefix": hex(&k[..p]), "pad": b, "len": k.len()})
+        } else {
+            json!(hex(k))
+        }
+    }
     fn to_json(&self) -> Value {
         if self.kind == Kind::Delete {
-            json!({"op": self.kind.name(), "k": hex(&self.key)})
+            json!({"op": self.kind.name(), "k": self.key_json()})
         } else {
-            json!({"op": self.kind.name(), "k": hex(&self.key), "n": self.len, "f": self.fill})
+            json!({"op": self.kind.name(), "k": self.key_json(), "n": self.len, "f": self.fill})
         }
     }
     fn from_json(v: &Value) -> Option<Op> {
-        Some(Op {
-            kind: Kind::parse(v["op"].as_str()?)?,
-            key: unhex(v["k"].as_str()?),
-            len: v["n"].as_u64().unwrap_or(0) as u32,
-            fill: v["f"].as_u64().unwrap_or(0) as u8,
-        })
+        let key = match &v["k"] {
+            Value::String(s) => unhex(s),
+            o => {
+                let mut k = unhex(o["prefix"].as_str()?);
+                k.resize(o["len"].as_u64()? as usize, o["pad"].as_u64()? as u8);
+                k
+            }
+        };
+        Some(Op { kind: Kind::parse(v["op"].as_str()?)?, key, len: v["n"].as_u64().unwrap_or(0) as u32, fill: v["f"].as_u64().unwrap_or(0) as u8 })
     }
     fn val(&self) -> Val {
         Val { len: self.len, fill: self.fill }
@@ -1393,25 +1410,29 @@ fn tasks(ctx: &Ctx) -> Vec<Task> {
         let seed = SEEDS.iter().position(|s| *s == seed).unwrap();
         out.push(Task { seed, pass, alpha, depth: ((depth as i64 + bump).max(1) as usize).min(MAXD) });
     };
+    let only_alpha = ctx.opt("alpha");
     if ctx.quick() {
         for s in SEEDS {
             let small = matches!(s, "empty" | "alpha");
-            add(s, Pass::A, 0, if small { 4 } else { 3 });
-            add(s, Pass::B, 0, 3);
-            add(s, Pass::C, 0, if small { 4 } else { 3 });
-            add(s, Pass::D, 0, if small { 4 } else { 3 });
-            add(s, Pass::E, 0, 3);
+            add(s, Pass::A, 0, if small { 5 } else { 4 });
+            add(s, Pass::B, 0, 4);
+            add(s, Pass::C, 0, if small { 5 } else { 4 });
+            add(s, Pass::D, 0, if small { 5 } else { 4 });
+            add(s, Pass::E, 0, 4);
         }
     } else {
         for s in SEEDS {
             let small = matches!(s, "empty" | "alpha");
-            add(s, Pass::A, 1, 4);
-            add(s, Pass::A, 0, if small { 6 } else { 5 });
-            add(s, Pass::B, 0, 5);
-            add(s, Pass::C, 0, if small { 6 } else { 5 });
-            add(s, Pass::D, 0, if small { 6 } else { 5 });
-            add(s, Pass::E, 0, 4);
+            add(s, Pass::A, 1, if small { 5 } else { 4 });
+            add(s, Pass::A, 0, if small { 7 } else { 6 });
+            add(s, Pass::B, 0, 6);
+            add(s, Pass::C, 0, if small { 7 } else { 6 });
+            add(s, Pass::D, 0, if small { 7 } else { 6 });
+            add(s, Pass::E, 0, 5);
         }
+    }
+    if let Some(a) = only_alpha {
+        out.retain(|t| ALPHAS[t.alpha] == a);
     }
     out
 }
@@ -1626,6 +1647,16 @@ fn enabled(op: &Op, m: &Model, pass: Pass) -> bool {
 
 struct C28;
 
+/// development aid (`--opt timing=<file>`): per-level timing lines, never part of a verdict
+fn tlog(ctx: &Ctx, line: &str) {
+    use std::io::Write;
+    if let Some(p) = ctx.opt("timing") {
+        if let Ok(mut f) = std::fs::OpenOptions::new().create(true).append(true).open(p) {
+            let _ = writeln!(f, "{line}");
+        }
+    }
+}
+
 impl C28 {
     fn explore(&self, ctx: &Ctx, rep: &mut Reporter) {
         let plant = ctx.opt("plant").is_some();
@@ -1665,12 +1696,14 @@ impl C28 {
         }
         let mut capped = false;
         let timing = ctx.opt("timing").is_some();
+        // development aid: `--opt dl=<seconds>` exercises the deadline path
+        let dev_deadline = ctx.opt("dl").and_then(|s| s.parse::<f64>().ok()).map(|s| Instant::now() + Duration::from_secs_f64(s));
         for level in 0..=maxd {
             let mut out: Vec<Vec<u8>> = vec![Vec::new(); x.n];
             let mut done = 0usize;
             let t_lvl = Instant::now();
             for rec in &frontier {
-                if ctx.expired() {
+                if ctx.expired() || dev_deadline.map(|d| Instant::now() >= d).unwrap_or(false) {
                     capped = true;
                     break;
                 }
@@ -1684,7 +1717,7 @@ impl C28 {
             let t_proc = t_lvl.elapsed();
             if level == maxd {
                 if timing {
-                    eprintln!("w{} level {level}: {} states, process {:?}", x.me, frontier.len(), t_proc);
+                    tlog(ctx, &format!("w{} level {level}: {} states, process {:?}", x.me, frontier.len(), t_proc));
                 }
                 break;
             }
@@ -1702,7 +1735,7 @@ impl C28 {
                 return;
             }
             if timing {
-                eprintln!("w{} level {level}: {} states, process {:?}, +exchange {:?}, in {} KB", x.me, frontier.len(), t_proc, t_lvl.elapsed(), incoming.iter().map(|b| b.len()).sum::<usize>() / 1024);
+                tlog(ctx, &format!("w{} level {level}: {} states, process {:?}, +exchange {:?}, in {} KB", x.me, frontier.len(), t_proc, t_lvl.elapsed(), incoming.iter().map(|b| b.len()).sum::<usize>() / 1024));
             }
             // next frontier: unseen states, canonical (smallest) op list per state
             let mut cand: HMap<Rec> = HMap::default();
